@@ -20,15 +20,17 @@ Orders(F) ==
       alast == SelectSeq(desc, LAMBDA r : r.id \notin act) \o SelectSeq(desc, LAMBDA r : r.id \in act)
   IN {asc, desc, afirst, alast}
 
-Scen(F, order, cb) ==
+Scen(F, order, cb, s) ==
   LET ids == {F.recs[i].id : i \in DOMAIN F.recs}
       byId == [b \in ids |-> CHOOSE r \in ToSet(F.recs) : r.id = b]
   IN [recs |-> [i \in DOMAIN order |-> RecOf(order[i])],
       store |-> {[file |-> b % 2, off |-> b, id |-> b] : b \in {x \in ids : byId[x].data}},
       files |-> {0, 1},
       facts |-> [b \in ids |-> [prev |-> byId[b].prev, merkleOk |-> TRUE]],
-      genesis |-> 0, start |-> 0, end |-> NONE, verify |-> TRUE, cb |-> cb, limit |-> NONE, kill |-> FALSE,
+      genesis |-> 0, start |-> s, end |-> NONE, verify |-> TRUE, cb |-> cb, limit |-> NONE, kill |-> FALSE,
       tip |-> Len(F.active) - 1, active |-> [h \in 0..(Len(F.active) - 1) |-> F.active[h + 1]]]
 
-MCScen == LET mk(FS) == UNION {{Scen(FS[i], o, "csvdump") : o \in Orders(FS[i])} : i \in DOMAIN FS} IN Force(Forks, mk)
+\* every --start from 0 to two above the active tip: selection must not depend on the range (nothing is delivered above the tip)
+MCScen == LET mk(FS) == UNION {{Scen(FS[i], o, "csvdump", s) : o \in Orders(FS[i]), s \in 0..(Len(FS[i].active) + 1)} : i \in DOMAIN FS}
+          IN Force(Forks, mk)
 =============================================================================
